@@ -46,6 +46,7 @@ func init() { register("adapter", adapterComp{}) }
 func (adapterComp) Parallel() bool { return true }
 
 type adapterRunner struct {
+	keyPen
 	violBuf
 	tagBuf
 	a    types.Cacher
@@ -173,7 +174,7 @@ func (r *adapterRunner) Exec(line string) string {
 	t := strings.Fields(line)
 	var k []byte
 	if len(t) > 1 {
-		k = unhx(t[1])
+		k = r.k(unhx(t[1]))
 		r.ever[string(k)] = true
 	}
 	switch t[0] {
@@ -335,6 +336,7 @@ func init() { register("unit", unitComp{}) }
 func (unitComp) Parallel() bool { return true }
 
 type unitRunner struct {
+	keyPen
 	violBuf
 	tagBuf
 	u     *storageUnit.Unit
@@ -430,7 +432,7 @@ func (r *unitRunner) Exec(line string) string {
 	}
 	switch t[0] {
 	case "put":
-		k, v := unhx(t[1]), unhx(t[2])
+		k, v := r.k(unhx(t[1])), unhx(t[2])
 		r.keys[string(k)] = true
 		r.p.failNext = t[3] == "1"
 		err := r.u.Put(k, v)
@@ -456,7 +458,7 @@ func (r *unitRunner) Exec(line string) string {
 		}
 		return finish(res, "after put "+hx(k))
 	case "get":
-		k := unhx(t[1])
+		k := r.k(unhx(t[1]))
 		r.keys[string(k)] = true
 		_, cached := r.c.Peek(k)
 		r.p.failNext = t[2] == "1"
@@ -478,7 +480,7 @@ func (r *unitRunner) Exec(line string) string {
 		}
 		return finish(res, "after get "+hx(k))
 	case "has":
-		k := unhx(t[1])
+		k := r.k(unhx(t[1]))
 		err := r.u.Has(k)
 		_, ok := r.ack[string(k)]
 		if ok != (err == nil) {
@@ -487,7 +489,7 @@ func (r *unitRunner) Exec(line string) string {
 		r.last = strings.Join(base, " ")
 		return b01(err == nil)
 	case "rm":
-		k := unhx(t[1])
+		k := r.k(unhx(t[1]))
 		r.p.failNext = t[2] == "1"
 		err := r.u.Remove(k)
 		r.p.failNext = false
@@ -589,6 +591,7 @@ func init() { register("fifo", fifoComp{}) }
 func (fifoComp) Parallel() bool { return true }
 
 type fifoRunner struct {
+	keyPen
 	violBuf
 	tagBuf
 	c        *fifocache.FIFOShardedCache
@@ -771,14 +774,14 @@ func (r *fifoRunner) Exec(line string) string {
 	t := strings.Fields(line)
 	switch t[0] {
 	case "put":
-		k, v := unhx(t[1]), unhx(t[2])
+		k, v := r.k(unhx(t[1])), unhx(t[2])
 		r.c.Put(k, v, 0)
 		h := r.collect(len(r.handlers))
 		r.expectHandlers(h, k, v, true, "put "+hx(k))
 		r.inserted(string(k), v, "after put "+hx(k))
 		return "| " + r.dump() + " | " + h
 	case "hoa":
-		k, v := unhx(t[1]), unhx(t[2])
+		k, v := r.k(unhx(t[1])), unhx(t[2])
 		was := r.c.Has(k)
 		has, added := r.c.HasOrAdd(k, v, 0)
 		want := 0
@@ -797,14 +800,14 @@ func (r *fifoRunner) Exec(line string) string {
 		}
 		return b01(has) + " " + b01(added) + " | " + r.dump() + " | " + h
 	case "get":
-		k := unhx(t[1])
+		k := r.k(unhx(t[1]))
 		v, ok := r.c.Get(k)
 		if !ok {
 			return "none | " + r.dump()
 		}
 		return "some:" + hx(v.([]byte)) + " | " + r.dump()
 	case "rm":
-		k := unhx(t[1])
+		k := r.k(unhx(t[1]))
 		r.c.Remove(k)
 		delete(r.age, string(k))
 		delete(r.vals, string(k))
